@@ -26,7 +26,10 @@ Inferable == { "text", "int64", "float64", "bool" }     \* types create(names + 
 
 VARIABLES made, cols, cells, units, nw, act, hist
 vars == << made, cols, cells, units, nw, act, hist >>
-View == << made, cols, cells, units, nw >>
+State == << made, cols, cells, units, nw >>
+\* the view keeps one history per state AND per "the last call was refused": every call is also explored right after a
+\* refused one (a refusal stutters, but what it leaves behind in the implementation's session would show next)
+View == << State, act.out # "ok" >>
 
 NC == Len(cols)
 NR == Len(cells)
@@ -108,10 +111,14 @@ Bad(kind) ==
 BadKinds == { "appendcol_short", "appendcol_long", "appendcol_dupname", "writerows_oob", "writerows_count",
               "writecol_short", "writecol_unknown_name", "writecol_unknown_index", "writecell_oob_row",
               "writecell_unknown_col", "appendrows_width" }
-CreateBadKinds == { "dup_colname", "no_names", "no_types" }
+\* bad_cell: a row whose cell does not fit its column type (the frame must not exist afterwards)
+CreateBadKinds == { "dup_colname", "no_names", "no_types", "bad_cell" }
 
 RowIdxSets == { << i >> : i \in 0..(MaxRows - 1) } \cup { << i, j >> : i \in 0..(MaxRows - 1), j \in 0..(MaxRows - 1) }
               \cup { << 2, 0, 1 >>, << 1, 2, 0 >>, << 0, 2, 1 >>, << 0, 1, 2 >> }
+              \* longer lists for tall frames: contiguous, evenly spaced, and irregular with a regular beginning and end
+              \cup (IF MaxRows >= 8 THEN { << 0, 1, 2, 3 >>, << 0, 2, 4, 6 >>, << 0, 2, 3, 6 >>, << 1, 3, 4, 7 >>,
+                                          << 0, 3, 4, 7 >>, << 1, 2, 4, 7 >>, << 0, 1, 3, 4, 6 >> } ELSE {})
 \* a unit for every column, for none, and a mix (0 = no unit for that column)
 UnitSeqs == { [i \in 1..NC |-> 0], [i \in 1..NC |-> 1], [i \in 1..NC |-> i % 3] }
 
@@ -142,7 +149,7 @@ ShapeMatches == made =>
 
 IsAct(n) == act'.name = n
 Refused == act'.out # "ok"
-RefusedUnchanged == [][Refused => View' = View]_vars
+RefusedUnchanged == [][Refused => State' = State]_vars
 
 \* a write changes only the addressed cells
 CellFrame == [][(~Refused /\ act'.name \in { "WriteRows", "WriteColumn", "WriteCell" }) =>
